@@ -60,8 +60,16 @@ fn gen_builder_nofault(ctx: &GenCtx) -> Vec<Value> {
             let mut cfg = workload::plan_cfg(&mut p, ctx.tier == Tier::Thorough, exp);
             cfg["source"] = json!("reader");
             let big = p.chance(1, 10);
-            let payload = workload::plan_payload(&mut p, &cfg, if big { 70_000 } else { 12_000 });
-            json!({"cfg": cfg, "payload": payload, "src_sched": p.sched().to_json(), "sink_sched": p.sched().to_json()})
+            let mut payload = workload::plan_payload(&mut p, &cfg, if big { 70_000 } else { 12_000 });
+            let mut src_sched = p.sched();
+            if jstr(&cfg, "data_mode") == "utf8" && p.chance(1, 3) {
+                // text the builder must refuse (one illegal line ending), whatever the read schedule
+                payload = json!({"gen": "utf8defect", "len": p.range(0, 120), "key": p.u64()});
+                if p.chance(1, 2) {
+                    src_sched = if p.chance(1, 2) { Sched::Fixed(p.range(1, 3)) } else { Sched::List((0..p.range(2, 12)).map(|_| p.range(1, 4)).collect()) };
+                }
+            }
+            json!({"cfg": cfg, "payload": payload, "src_sched": src_sched.to_json(), "sink_sched": p.sched().to_json()})
         })
         .collect()
 }
@@ -155,7 +163,7 @@ fn run_builder(plan: &Value, rec: &mut Rec) {
                     );
                 }
             }
-            (Ok(Err(_)), false) => {}
+            (Ok(Err(_)), false) => rec.count("probe:refused-by-reference-and-by-scheduled-build"),
             (Ok(Ok(())), false) => rec.violation("result-differs", "builder", format!("reference build failed ({:?}) but scheduled build succeeded", reference.result), plan.clone()),
             (Ok(Err(e)), true) => rec.violation("result-differs", "builder", format!("scheduled build failed though no fault was injected: {e}"), plan.clone()),
         }
